@@ -36,7 +36,7 @@ def gen_assign(rng, params, allow_reject=True, states=()):
     fmt = rng.choice(fmts)
     reject = None
     if allow_reject and rng.random() < 0.22:
-        reject = rng.choice(["unknown_name_dict", "unknown_name_pairs", "short", "long", "toobig_dict"])
+        reject = rng.choice(["unknown_name_dict", "unknown_name_pairs", "short", "long", "toobig_dict", "matrix"])
     if reject == "unknown_name_dict":
         names = rng.sample(params, rng.randint(1, p))
         vals = [[nm, val()] for nm in names]
@@ -57,6 +57,10 @@ def gen_assign(rng, params, allow_reject=True, states=()):
     if reject == "long":
         vals = [[nm, val()] for nm in params] + [["extra", val()]]
         return {"op": "set_params", "fmt": rng.choice(["list", "tuple", "array"]), "values": vals, "reject": "wrong_length"}
+    if reject == "matrix":
+        # a two-dimensional array with one row per parameter but more than one column: the right length, the wrong size
+        vals = [[nm, float(val())] for nm in params]
+        return {"op": "set_params", "fmt": "array2d", "values": vals, "cols": rng.choice([2, 2, 3]), "reject": "wrong_length"}
     if reject == "toobig_dict":
         vals = [[nm, val()] for nm in params] + [["nosuchparam", val()]]
         return {"op": "set_params", "fmt": "dict", "values": vals, "reject": "too_many"}
